@@ -228,7 +228,7 @@ func run(c Case) vt.Verdict {
 	if err := ex.Close(); err != nil {
 		return vt.Bad("Close: %v", err)
 	}
-	f := obs.Read(file, obs.Options{})
+	f := obs.Read(file, obs.Options{SelSeeds: []uint64{11, 22, 33, 44}})
 	ps := hist.Compare(ex.M, f, hist.Opts{})
 	for _, p := range ps {
 		if staleRisk && p.Path == "/r" && (p.Kind == "read-error" || p.Kind == "read-values") {
